@@ -37,20 +37,21 @@ Theorem C10_rule : forall h byz cands el la pg minp top mal,
 Proof. exact rule_holds. Qed.
 Print Assumptions C10_rule.
 
-(* "neither frozen nor flagged malicious" is relative to the malicious set the election is given.
-   That set is empty while height <= BlockVotesDiff (CheckMaliciousValidators returns early), so
-   the full statement with "frozen in the previous block's records" is false of the faithful
-   model: known finding C10.frozen_elected_in_votes_window *)
-Theorem C10_rule_refuted_frozen_window : exists h bvd frozen cands c,
-  h <= bvd /\ c ∈ elect 1000 4 (malicious_set h bvd frozen) cands /\ c_addr c ∈ frozen.
-Proof.
-  exists 4, 6, [3%N], [mkc 1%N 1%N 1500 1500; mkc 3%N 3%N 1200 1200], (mkc 3%N 3%N 1200 1200).
-  split; [lia|]. split; [vm_compute|]; set_solver.
-Qed.
-Theorem C10_rule_after_window : forall h bvd frozen minp top cands c, bvd < h -> NoDup cands ->
+(* "neither frozen nor flagged malicious": the malicious set given to the election is the set of
+   frozen records at EVERY height (CheckMaliciousValidators since /repo 304e1e1; before that fix it
+   was empty while height <= BlockVotesDiff — finding C10.frozen_elected_in_votes_window, fixed).
+   No frozen validator is elected, at any height, for any window. *)
+Theorem C10_rule_no_frozen_elected : forall h bvd frozen minp top cands c, NoDup cands ->
   c ∈ elect minp top (malicious_set h bvd frozen) cands -> c_addr c ∉ frozen.
-Proof. exact after_window. Qed.
-Print Assumptions C10_rule_after_window.
+Proof. exact no_frozen_elected. Qed.
+Print Assumptions C10_rule_no_frozen_elected.
+
+(* the former witness of the defect (height 4 inside a window of 6, validator 3 frozen) now shows
+   the repaired behaviour: validator 3 is left out *)
+Example C10_frozen_in_window_not_elected :
+  elect 1000 4 (malicious_set 4 6 [3%N]) [mkc 1%N 1%N 1500 1500; mkc 3%N 3%N 1200 1200]
+  = [mkc 1%N 1%N 1500 1500].
+Proof. vm_compute. reflexivity. Qed.
 
 (* ---- acceptance ---- *)
 
@@ -65,6 +66,28 @@ Theorem C10_accepted_partial : forall U cap g es,
   is_Some (chain_run (chain_init g) es).
 Proof. exact accepted. Qed.
 Print Assumptions C10_accepted_partial.
+
+(* Since /repo 9246c8d the STAKE handler refuses a validator address that is not the address of
+   the consensus key, and ValidatorStore.set has no other caller that creates a record.  "Record
+   address = address of its key, distinct addresses" is therefore an INVARIANT of the record
+   table under every sequence of record operations (stake, unstake / penalty, rewrite of the
+   stake, deletion), not a hypothesis: *)
+Theorem C10_records_keyed : forall ops t, table_ok t -> table_ok (rec_run t ops).
+Proof. exact rec_run_ok. Qed.
+Print Assumptions C10_records_keyed.
+
+(* C10_accepted for reachable tables.  The candidate table of each block is the table the record
+   operations of the previous blocks left (starting from a genesis table t0 whose records are
+   keyed by the address of their key — the genesis loader calls HandleStake without the handler's
+   check, so this is assumed of the genesis file).  What remains assumed per block (env_rest):
+   1 <= minimum self delegation after int64 narrowing; top count >= 1; at least one eligible
+   candidate (findings C10.no_eligible_candidate); the election is a valid one; powers below
+   per-key caps that sum to at most MaxTotalVotingPower. *)
+Theorem C10_accepted_reachable : forall U cap g t0 bs,
+  cap_ok U cap -> genesis_ok U cap g -> table_ok t0 ->
+  Forall (env_rest U cap) (envs_of t0 bs) -> is_Some (chain_run (chain_init g) (envs_of t0 bs)).
+Proof. exact accepted_reachable. Qed.
+Print Assumptions C10_accepted_reachable.
 
 (* ... and "the run does not halt" means that each block's list passed the acceptance rule *)
 Theorem C10_run_means_accepted : forall es ch ch', chain_run ch es = Some ch' ->
@@ -113,14 +136,25 @@ Proof. vm_compute. discriminate. Qed.
 
 (* ---- the full statements are false of the faithful model: witnesses ---- *)
 
-(* without "record address = address of the record's key" (two records with one consensus key —
-   reachable on the real code: known finding C10.duplicate_pubkey_stake) Tendermint rejects *)
+(* the former witness of finding C10.duplicate_pubkey_stake (a STAKE registering address 2 with
+   the consensus key of validator 1), now the repaired behaviour: the operation is refused, the
+   table is unchanged, and the run is accepted *)
+Example C10_duplicate_key_stake_refused :
+  rec_run [mkc 1%N 1%N 1000 1000] [RStake 2%N 1%N 5000] = [mkc 1%N 1%N 1000 1000] /\
+  chain_run (chain_init [(1%N, 1000)])
+    (envs_of [mkc 1%N 1%N 1000 1000]
+       [mkblk [RStake 2%N 1%N 5000] (mko 1000 4) [] false [mkc 1%N 1%N 1000 1000];
+        mkblk [] (mko 1000 4) [] false [mkc 1%N 1%N 1000 1000];
+        mkblk [] (mko 1000 4) [] false [mkc 1%N 1%N 1000 1000]]) <> None.
+Proof. split; vm_compute; [reflexivity|discriminate]. Qed.
+
+(* (the invariant matters: an arbitrary table with two records sharing a key — no longer
+   reachable — would make Tendermint reject) *)
 Definition dup_cands : list cand := [mkc 1%N 1%N 1000 1000; mkc 2%N 1%N 5000 5000].
 Definition dup_env : env := mke dup_cands (mko 1000 4) [] false (elect 1000 4 [] dup_cands).
-Theorem C10_accepted_refuted_duplicate_key : exists g es,
-  existsb (fun d => negb (N.eqb (c_addr d) (c_pk d))) dup_cands = true /\
-  chain_run (chain_init g) es = None.
-Proof. exists [(1%N, 1000)], [dup_env; dup_env]. split; vm_compute; reflexivity. Qed.
+Example C10_accepted_needs_keyed_tables :
+  chain_run (chain_init [(1%N, 1000)]) [dup_env; dup_env] = None.
+Proof. vm_compute. reflexivity. Qed.
 
 (* without "at least one eligible candidate" (everybody unstaked: known finding
    C10.no_eligible_candidate) the only update removes the last validator: rejected *)
@@ -128,6 +162,28 @@ Definition gone_env : env := mke [mkc 1%N 1%N 0 0] (mko 1000 4) [] false [].
 Theorem C10_accepted_refuted_no_eligible : exists g es,
   elect 1000 4 [] [mkc 1%N 1%N 0 0] = [] /\ chain_run (chain_init g) es = None.
 Proof. exists [(1%N, 1000)], [gone_env; gone_env]. split; vm_compute; reflexivity. Qed.
+
+(* ---- convergence ---- *)
+
+(* C10_converges (partial).  From any state satisfying the chain invariant (every reachable state
+   does: C10_invariant) at height >= 1, if the candidate table, options, malicious set and
+   election stay the same and satisfy env_ok, then after 3 blocks — hence after the 5 of the
+   property text, and after any larger number — the pending validator set is exactly the
+   election (keys and powers), PROVIDED every member of the pending set still has a validator
+   record.  That proviso is the complement of trigger C10.member_without_record. *)
+Theorem C10_converges_partial : forall U cap ch e n, cap_ok U cap -> chain_inv U cap ch -> env_ok U cap e ->
+  1 <= ch_height ch ->
+  (forall a, a ∈ vkeys (ch_next ch) -> a ∈ map c_addr (e_cands e)) ->
+  exists ch', chain_run ch (replicate (3 + n) e) = Some ch' /\ ch_next ch' ≡ₚ pos_updates (e_el e).
+Proof. exact converges. Qed.
+Print Assumptions C10_converges_partial.
+
+Theorem C10_converges_five_blocks : forall U cap ch e, cap_ok U cap -> chain_inv U cap ch -> env_ok U cap e ->
+  1 <= ch_height ch ->
+  (forall a, a ∈ vkeys (ch_next ch) -> a ∈ map c_addr (e_cands e)) ->
+  exists ch', chain_run ch (replicate 5 e) = Some ch' /\ ch_next ch' ≡ₚ pos_updates (e_el e).
+Proof. exact converges5. Qed.
+Print Assumptions C10_converges_five_blocks.
 
 (* C10_converges is false of the faithful model: a validator that is elected once and whose record
    disappears before it shows up in LastCommitInfo is never purged (known finding
@@ -147,8 +203,7 @@ Proof.
 Qed.
 
 (* ... while a member that still has a record (here below the minimum) is purged and the set
-   becomes exactly the election (the statement is not vacuous; the general convergence theorem
-   is not proved in this slice, see the report) *)
+   becomes exactly the election (the partial theorem is not vacuous) *)
 Definition quiet_env2 : env :=
   let cs := [mkc 2%N 2%N 1000 1000; mkc 3%N 3%N 900 900] in mke cs (mko 1000 4) [] false (elect 1000 4 [] cs).
 Example C10_converges_example : exists ch,
